@@ -320,9 +320,16 @@ impl FillIter {
             .collect();
         edges.sort_by_key(|e| -e.start_y);
 
+        let bounds = poly.bounding_rect();
+        if bounds.is_empty() {
+            // There are no pixels to fill. A polygon with zero width can still
+            // have non-horizontal edges; with active edges the iterator would
+            // look for the end of a zero-length row.
+            edges.clear();
+        }
+
         let active_edges = Vec::with_capacity(edges.len());
 
-        let bounds = poly.bounding_rect();
         let mut iter = FillIter {
             edges,
             active_edges,
